@@ -220,6 +220,42 @@ def set_operation_programs():
 FEATURES_DB += set_operation_programs()
 
 
+def loop_programs():
+    """`loop` (WITH RECURSIVE) in every place a relation can stand x what precedes it x what follows it.  What follows
+    decides how many CTEs come AFTER the recursive one and whether the loop's CTE is the last of the WITH list;
+    schema of FEATURES_DB (t1: id k a b s; t2: id k a c s)."""
+    starts = {"literal": "from [{n = 1}]", "table": "from t1 | select {n = id}", "table_filter": "from t1 | filter id < 3 | select {n = id}",
+              "aggregate": "from t1 | aggregate {n = min id}", "take": "from t1 | sort id | take 2 | select {n = id}"}
+    bodies = ["filter n < 4 | select {n = n + 1}", "filter n < 4 | derive {m = n + 1} | select {n = m}", "select {n = n + 1} | filter n < 5"]
+    tails = {"none": "", "select": " | select {m = n * 2}", "take_filter": " | take 3 | filter n > 1", "sort_take": " | sort {-n} | take 2",
+             "window_filter": " | derive {r = rank n} | filter r > 1", "group": " | group n (aggregate {c = count this}) | filter c > 0",
+             "take_derive_filter_take": " | take 5 | derive {d = n + 1} | filter d > 2 | take 2", "join": " | join t2 (n == t2.id) | select {n, t2.c}",
+             "join_take_filter": " | join side:left t2 (n == t2.id) | take 4 | filter n > 0", "append": " | append (from t2 | select {n = id})",
+             "append_take_filter": " | append (from t2 | select {n = id}) | take 3 | filter n > 1", "distinct": " | group n (take 1) | sort n",
+             "aggregate": " | aggregate {s = sum n} | filter s > 0"}
+    out = []
+    for sn, st in starts.items():
+        for bi, body in enumerate(bodies):
+            for tn, tl in tails.items():
+                if bi and sn not in ("literal", "table"):
+                    continue
+                lp = "%s | loop (%s)" % (st, body)
+                out.append(lp + tl)                                                     # in the main pipeline
+                if bi == 0:
+                    out.append("let l = (%s)\nfrom l%s" % (lp, tl))                     # bound by let, then read
+                    if tn in ("none", "take_filter", "select", "join"):
+                        out.append("let l = (%s%s)\nfrom t1 | join l (t1.id == l.%s) | take 3 | filter t1.id > 0" % (lp, tl if tn != "join" else "", "m" if tn == "select" else "n"))
+                        out.append("from t2 | select {n = id} | append (%s) | take 4 | filter n > 0" % (lp.replace("\n", " ") + (tl if tn == "take_filter" else "")))
+                        out.append("let l = (%s)\nfrom l | join m = l (==n)%s" % (lp, "" if tn == "none" else " | take 3 | filter l.n > 0"))
+    # two loops in one statement
+    out.append("let a = (from [{n = 1}] | loop (filter n < 3 | select {n = n + 1}))\nlet b = (from [{n = 5}] | loop (filter n < 7 | select {n = n + 1}))\nfrom a | join b (a.n < b.n) | take 5 | filter a.n > 0")
+    out.append("from [{n = 1}] | loop (filter n < 3 | select {n = n + 1}) | take 5 | loop (filter n < 6 | select {n = n + 2}) | take 4 | filter n > 1")
+    return out
+
+
+FEATURES_DB += loop_programs()
+
+
 def _shard(seed, shard, n_rel, corpus_srcs):
     rng = core.shard_rng(seed, "C07", shard)
     w = core.Worker()
